@@ -161,6 +161,7 @@ func strSet(ps []string) string {
 func cmdCacheCases(args []string) error {
 	fl := flag.NewFlagSet("cachecases", flag.ExitOnError)
 	in := fl.String("in", "", "TLC output with cache cases")
+	naming := fl.String("naming", "", "\"prefix\": the model's names a, b become sub, sub.old (one a string prefix of the other)")
 	fl.Parse(args)
 	f, err := os.Open(*in)
 	if err != nil {
@@ -197,6 +198,10 @@ func cmdCacheCases(args []string) error {
 		var inner string
 		if err := json.Unmarshal([]byte(line), &inner); err != nil {
 			return err
+		}
+		if *naming == "prefix" {
+			// names occur in the case only as whole JSON strings (path segments, listing / stat entries)
+			inner = strings.ReplaceAll(strings.ReplaceAll(inner, `"b"`, `"sub.old"`), `"a"`, `"sub"`)
 		}
 		var c cacheCase
 		if err := json.Unmarshal([]byte(inner), &c); err != nil {
